@@ -94,3 +94,15 @@ Section SweepSpectrum.
     intros k s Hk. eexists. split; [apply map_nth_error; exact Hk |]. reflexivity.
   Qed.
 End SweepSpectrum.
+
+(* FULL STRENGTH for the code as it is now: a sweep whose base is an OPTIMISED setup gives that setup the value 1 -- the sweep path's
+   form of "an optimised setup has normalised coincidence intensity 1 at its centre" (idempotence makes the base its own reference) *)
+Theorem sweep_unit_of_optimised_base K minpos jsa_raw norm_jsi freq s so nf :
+  collinear_contract K -> try_as_optimum_now K minpos s = Ok (so, nf) ->
+  jsi_of jsa_raw norm_jsi so (fst (center freq so)) (snd (center freq so)) <> 0 ->
+  jsi_values_normalized K minpos optimum_idler_sees_old_poling optimum_waist_sees_old_idler jsa_raw norm_jsi freq so [so] = Ok [1].
+Proof.
+  intros HK Ho Hne.
+  apply (sweep_unit_at_optimum K minpos optimum_idler_sees_old_poling optimum_waist_sees_old_idler jsa_raw norm_jsi freq so so nf); [| exact Hne].
+  exact (optimum_idempotent_now K minpos s so nf HK Ho).
+Qed.
